@@ -285,7 +285,8 @@ def model_compare(vectors):
 
 def period_value(t, period):
     import datetime as dtm
-    d = dtm.datetime(1970, 1, 1) + dtm.timedelta(seconds=int(t))
+    import math
+    d = dtm.datetime(1970, 1, 1) + dtm.timedelta(seconds=math.floor(t))
     if period in ("week", "weekofyear"):
         return d.isocalendar()[1]
     if period == "month":
